@@ -564,6 +564,8 @@ class Lib:
         if isinstance(x, self.Aggregate): return self.dump_inst(x)
         if isinstance(x, ET.Element): return self.dump_tree(x)
         if isinstance(x, self.io.BytesIO): return ("bytesio", x.getvalue())
+        if isinstance(x, tuple) and len(x) == 2 and isinstance(x[1], self.Aggregate):      # (client, request): both are the caller's
+            return ("client+request", sorted((k, repr(v)) for k, v in vars(x[0]).items() if k != "cookiejar"), self.dump_inst(x[1]))
         if isinstance(x, (bytes, str)) or x is None: return x
         if hasattr(x, "__dict__"): return (type(x).__name__, sorted(((k, self.dump_val(v)) for k, v in vars(x).items()), key=lambda kv: kv[0]))
         return repr(x)
@@ -588,6 +590,10 @@ class Lib:
         if name == "to_etree": return self.dump_tree(x.to_etree())
         if name == "serialize_xml": return ET.tostring(x.to_etree())
         if name == "serialize_sgml": return U.tostring_unclosed_elements(x.to_etree())
+        if name.startswith("cser:"):
+            # OFXClient.serialize(ofx, version=<per-call override>) on a request the CALLER built and keeps; x = (client, ofx)
+            _, ver, closed = name.split(":")
+            return x[0].serialize(x[1], version=int(ver), oldfileuid="NONE", newfileuid="N1", close_elements=(closed == "c"), prettyprint=False)
         if name == "client_serialize":
             c = self.OFXClient("https://ofx.example.invalid/", userid="u", org="O", fid="1", version=203, prettyprint=True)
             c1 = self.OFXClient("https://ofx.example.invalid/", version=102, prettyprint=False, close_elements=False)
@@ -778,6 +784,19 @@ class Lib:
                 for e in b["x"]: e.tail = (e.tail or "") + " "
         elif kind in ("mx", "mxr", "eq"):
             pass
+        elif kind == "rq":
+            # a request as a caller builds it: signon carrying CLIENTUID (client configured for 2.0.3), plus a profile / statement request
+            M = self.M
+            fixed = self.datetime.datetime(2024, 2, 29, 12, 0, 0, tzinfo=self.datetime.timezone.utc)
+            cl = self.OFXClient("https://ofx.example.invalid/", userid="jdoe", clientuid="CLIENTUID-0001-ABCD", org="ORG", fid="77", version=203, bankid="1")
+            cl.dtclient = lambda: fixed
+            son = cl.signon("t0ps3kr1t")
+            if name == "profile":
+                body = dict(profmsgsrqv1=M.PROFMSGSRQV1(M.PROFTRNRQ(trnuid="T1", profrq=M.PROFRQ(clientrouting="NONE", dtprofup=fixed))))
+            else:
+                stmtrq = M.STMTRQ(bankacctfrom=M.BANKACCTFROM(bankid="1", acctid="2", accttype="CHECKING"), inctran=M.INCTRAN(dtstart=fixed, include=True))
+                body = dict(bankmsgsrqv1=M.BANKMSGSRQV1(M.STMTTRNRQ(trnuid="T1", stmtrq=stmtrq)))
+            b["rq"] = (cl, M.OFX(signonmsgsrqv1=son, **body))
         elif kind == "gen":
             b["gen"] = []
             for full in (False, True):
@@ -811,6 +830,18 @@ class Lib:
                 self.checked(c, b["x"], reps, out, "%s|%s" % (c, group))
         elif kind in ("mx", "mxr"):
             self.run_mx(group, out)
+        elif kind == "rq":
+            # every supported version as a PER-CALL override, below and above 1.0.3 (where CLIENTUID appeared), the client's own version
+            # before, between and after; the caller's instance is snapshotted around every call, and the three serializations with the
+            # client's own version must be the same bytes
+            same = []
+            for i, (ver, closed) in enumerate([(203, "c"), (102, "c"), (203, "c"), (102, "u"), (103, "c"), (151, "u"), (160, "c"), (200, "c"), (201, "c"), (202, "c"),
+                                               (210, "c"), (211, "c"), (220, "c"), (203, "c")]):
+                k0 = len(out)
+                self.checked("cser:%d:%s" % (ver, closed), b["rq"], reps, out, "cser:%d:%s|%s#%d" % (ver, closed, group, i))
+                if ver == 203: same.append(out[k0]["d"][0])
+            out.append({"k": "cser_own_version_again|%s" % group, "c": "client_serialize_again", "d": list(dict.fromkeys(same)), "mut": False, "ok": True, "n": len(same),
+                        "p": "serialize(ofx) with the client's own version, before / between / after calls with version overrides: %d distinct result(s)" % len(set(same)), "mutp": ""})
         elif kind == "eq":
             self.run_eq(group, reps, out)
         else:
@@ -934,7 +965,7 @@ def w_script(job):
 
 def w_inventory(job):
     L = Lib(job["repo"])
-    return {"docs": sorted(L.docs), "xml": sorted(XMLS), "classes": L.classes, "mx": L.inventory_mx(), "eq": list(L.eq)}
+    return {"docs": sorted(L.docs), "xml": sorted(XMLS), "classes": L.classes, "mx": L.inventory_mx(), "eq": list(L.eq), "rq": ["profile", "stmt"]}
 
 
 # ================================================================== main-process side
@@ -1128,7 +1159,7 @@ def run(rep, tier, rng):
         json.dump(inv, f)
     # eq: equal-but-not-identical arguments, one group per member; mx: accepted and REJECTED constructions / conversions of every class
     # with exclusivity groups or a validate_args hook, repeated, with the class-level tables snapshotted around them
-    groups = (["doc:" + d for d in inv["docs"]] + ["xml:" + x for x in inv["xml"]] + ["eq:" + n for n in inv["eq"]]
+    groups = (["doc:" + d for d in inv["docs"]] + ["xml:" + x for x in inv["xml"]] + ["rq:" + n for n in inv["rq"]] + ["eq:" + n for n in inv["eq"]]
               + ["mx:" + c for c in sorted(inv["mx"])]
               # mxr: only the sets that break a group, last group first (another refusal is the first thing asked of the class)
               + ["mxr:" + c for c in sorted(inv["mx"]) if inv["mx"][c]["opt"] or inv["mx"][c]["req"]])
